@@ -5,7 +5,7 @@ Model: Poupool/Model/Pwm.lean (`compute`, `phDuty`, `orpDuty`, `dutyOn`, `tick`,
 the negation applied by `ph_pterm`, scales) from the regenerated Poupool/Generated/PwmConfig.lean.
 Numbers are exact rationals (`Rat`): binary64 rounding is outside the model (see the correspondence check).
 -/
-import Poupool.Proofs.PwmDuty
+import Poupool.Proofs.PwmFraction
 import Poupool.Generated.PwmConfig
 
 namespace Poupool.C20
@@ -149,11 +149,11 @@ theorem c20_pulse_min_runtime (period minRt : Rat) (S start : Int) (ops : List O
     (runH pwmCfg (H.init pwmCfg period minRt S start) ops).short = false :=
   (pinv_run pwmCfg ops _ (pinv_init pwmCfg period minRt S start) hm).hshort
 
-/-- What is proved of "the PWM reproduces the duty": the LOWER half per pulse (previous theorem: a pulse that ends by
-itself has lasted ≥ dutyOn' ≥ min_runtime) and duty 0 ⇒ never on.  NOT proved (decided by the monitor of checks/c20.py on
-every constant-duty trace of the real class instead): the upper half (pulse < dutyOn' + Δ, gap within
-[period − dutyOn', period − dutyOn' + Δ)) and hence `|onTime − n·dutyOn'| ≤ 2·n·Δ` over n whole periods.  This alias only
-names the partial result. -/
+/-- The LOWER half per pulse of "the PWM reproduces the duty" (previous theorem: a pulse that ends by itself has lasted
+≥ dutyOn' ≥ min_runtime), for arbitrary op lists (duty / period written at any instant, cancels, any tick spacing).  This
+alias was the only proved part of the on-fraction clause before; the clause itself (upper halves, pauses, on-fraction over
+whole periods at constant duty) is now proved below: `c20_phase_lengths`, `c20_cycles`, `c20_cycle_fraction`,
+`c20_on_fraction`, `c20_zero_on`, `c20_full_on`.  The alias is kept because it needs none of their hypotheses. -/
 theorem c20_on_fraction_partial (period minRt : Rat) (S start : Int) (ops : List Op) (hm : Mono ops) :
     (runH pwmCfg (H.init pwmCfg period minRt S start) ops).short = false :=
   c20_pulse_min_runtime period minRt S start ops hm
@@ -171,5 +171,283 @@ example : (runH pwmCfg (H.init pwmCfg 10 3 7200 0) (dropOps.take 12)).g.s.pumpOn
     (runH pwmCfg (H.init pwmCfg 10 3 7200 0) (dropOps.take 19)).g.s.pumpOn = false ∧
     (runH pwmCfg (H.init pwmCfg 10 3 7200 0) (dropOps.take 19)).onSince = 5000000 ∧
     (runH pwmCfg (H.init pwmCfg 10 3 7200 0) (dropOps.take 19)).g.clock = 8000000 := by decide +kernel
+
+/-! ## on-fraction over whole periods at constant duty (Proofs/PwmFraction.lean)
+
+Setting of the theorems below.  `s` is a PWM state at a CYCLE BOUNDARY at instant `t0` (`Boundary v P m s t0`: pump off,
+accumulator 0, the do_run at `t0` just executed, duty `v`, period `P`, min_runtime `m`): by `c20_fresh_boundary` that is
+the state right after the FIRST do_run following construction or do_cancel (which only records the instant – the first
+phase of the PWM is an off-pause measured from that do_run), and by `c20_boundary_again` also the state after any do_run
+that has just switched the pump off.  `ds` are the gaps (µs) between the further do_runs, each within [0, Δ]
+(`Gaps Δ ds`; the property's quantifier is the special case 0.5 s ≤ gap ≤ Δ = 1.5 s); duty, period, min_runtime are not
+written and do_cancel is not called during the run; `capHit = false`: no do_run of the run found the security timer
+elapsed (C03 takes precedence over the duty; `c20_no_cap_of_budget` gives a sufficient condition on the start state).
+`dutyOn v P m` is the rounded on-time of `c20_dutyOn_rounding`, `secs` converts µs to seconds.
+Quantifier: every duty 0 ≤ v ≤ 1, every period P > 0 (⊇ 10..600 s), every 0 ≤ m ≤ P (⊇ 0..10 s). -/
+
+/-- Fresh starts are cycle boundaries: after `PWM.__init__` + `value = v`, or after `do_cancel`, the first do_run (at any
+instant `t0`) leaves the PWM in a `Boundary` state at `t0`. -/
+theorem c20_fresh_boundary (v P m : Rat) (S start t0 : Int) (s : PwmState) (tc : Int) :
+    Boundary v P m (tick pwmCfg t0 (setValue v (PwmState.init pwmCfg P m S start))) t0 ∧
+    Boundary s.value s.period s.minRuntime (tick pwmCfg t0 (cancel tc s)) t0 :=
+  ⟨boundary_of_fresh pwmCfg t0 (fresh_init pwmCfg v P m S start), boundary_of_fresh pwmCfg t0 (fresh_cancel tc s)⟩
+
+example : Boundary (1 / 2) 10 3 (tick pwmCfg 0 (setValue (1 / 2) (PwmState.init pwmCfg 10 3 7200 0))) 0 :=
+  (c20_fresh_boundary (1 / 2) 10 3 7200 0 0 (PwmState.init pwmCfg 10 3 7200 0) 0).1
+
+/-- (1) Phase lengths.  Every completed on-pulse lasts within [dutyOn', dutyOn' + Δ) and every completed off-pause within
+[period − dutyOn', period − dutyOn' + Δ] (strictly below the upper end unless dutyOn' = period, where the only pause is
+the first tick gap).  All duties, no side condition relating Δ to the phase lengths: the `constrain(…, 0, period)` clamp
+is harmless because both thresholds are ≤ period. -/
+theorem c20_phase_lengths (v P m : Rat) (Δ : Int) (s : PwmState) (t0 : Int) (ds : List Int)
+    (hs : Boundary v P m s t0) (hv0 : 0 ≤ v) (hv1 : v ≤ 1) (hP : 0 < P) (hm0 : 0 ≤ m) (hm : m ≤ P) (hΔ : 0 ≤ Δ)
+    (hg : Gaps Δ ds) (hcap : (runF pwmCfg (F.begin s t0) ds).capHit = false) :
+    (∀ p ∈ (runF pwmCfg (F.begin s t0) ds).pulses,
+      dutyOn v P m ≤ secs p ∧ secs p < dutyOn v P m + secs Δ) ∧
+    (∀ p ∈ (runF pwmCfg (F.begin s t0) ds).pauses,
+      P - dutyOn v P m ≤ secs p ∧ secs p ≤ P - dutyOn v P m + secs Δ ∧
+      (dutyOn v P m < P → secs p < P - dutyOn v P m + secs Δ)) := by
+  obtain ⟨hb, _, hc⟩ := run_cases pwmCfg v P m Δ s t0 ds hs hv0 hv1 hP hm0 hm hΔ hg hcap
+  rcases hc with ⟨_, hz⟩ | ⟨h1, hf, _⟩ | ⟨_, _, hn⟩
+  · rw [hz.hpl, hz.hpa]; simp
+  · rw [hf.hpl]
+    refine ⟨by simp, ?_⟩
+    intro p hp
+    have hlen := hb.hlen
+    rw [hf.hpl] at hlen
+    have hsum := hf.hsum
+    have : (runF pwmCfg (F.begin s t0) ds).pauses = [p] := by
+      match hq : (runF pwmCfg (F.begin s t0) ds).pauses, hp, hlen with
+      | [q], hp, _ => simp at hp; rw [hp]
+      | q :: r :: l, _, hlen => simp at hlen; split at hlen <;> omega
+    rw [this] at hsum
+    simp at hsum
+    have a := secs_nonneg hsum.1
+    have b := secs_mono hsum.2
+    rw [h1]
+    exact ⟨by grind, by grind, fun h => absurd h (by grind)⟩
+  · refine ⟨hn.hpulses, fun p hp => ?_⟩
+    have := hn.hpauses p hp
+    exact ⟨this.1, Rat.le_of_lt this.2, fun _ => this.2⟩
+
+/-- P = 10 s, min_runtime 3 s, duty 1/2 (on' = 5 s), ticks alternately 1.5 s and 0.5 s apart, 40 do_runs after the first -/
+def halfGaps : List Int := (List.replicate 20 [1500000, 500000]).flatten
+def halfStart : PwmState := tick pwmCfg 0 (setValue (1 / 2) (PwmState.init pwmCfg 10 3 7200 0))
+
+example : Gaps 1500000 halfGaps ∧ (runF pwmCfg (F.begin halfStart 0) halfGaps).capHit = false ∧
+    (runF pwmCfg (F.begin halfStart 0) halfGaps).pulses = [6000000, 6000000, 6000000] ∧
+    (runF pwmCfg (F.begin halfStart 0) halfGaps).pauses = [6000000, 6000000, 5500000] := by decide +kernel
+
+/-- (2) Cycle-aligned windows.  Over any run of do_runs that starts at a cycle boundary and ends at one (the last do_run
+switched the pump off) and so contains exactly n completed (pause, pulse) cycles, the energised time T_on satisfies
+n·dutyOn' ≤ T_on ≤ n·(dutyOn' + Δ) and the elapsed time T satisfies n·period ≤ T ≤ n·(period + 2Δ), both upper bounds
+strict when n ≥ 1; in particular 0 ≤ T_on − n·dutyOn' < n·Δ.  (Non-degenerate duties 0 < dutyOn' < period; the other two
+cases have no completed cycle: `c20_zero_on`, `c20_full_on`.) -/
+theorem c20_cycles (v P m : Rat) (Δ : Int) (s : PwmState) (t0 : Int) (ds : List Int)
+    (hs : Boundary v P m s t0) (hv0 : 0 ≤ v) (hv1 : v ≤ 1) (hP : 0 < P) (hm0 : 0 ≤ m) (hm : m ≤ P) (hΔ : 0 ≤ Δ)
+    (hg : Gaps Δ ds) (hcap : (runF pwmCfg (F.begin s t0) ds).capHit = false)
+    (h0 : 0 < dutyOn v P m) (h1 : dutyOn v P m < P) (hat : AtBoundary (runF pwmCfg (F.begin s t0) ds))
+    (n : Nat) (hn : (runF pwmCfg (F.begin s t0) ds).pulses.length = n) :
+    ((n : Rat) * dutyOn v P m ≤ secs (runF pwmCfg (F.begin s t0) ds).onTime ∧
+      secs (runF pwmCfg (F.begin s t0) ds).onTime ≤ (n : Rat) * (dutyOn v P m + secs Δ) ∧
+      (n ≠ 0 → secs (runF pwmCfg (F.begin s t0) ds).onTime < (n : Rat) * (dutyOn v P m + secs Δ))) ∧
+    ((n : Rat) * P ≤ secs ((runF pwmCfg (F.begin s t0) ds).clock - t0) ∧
+      secs ((runF pwmCfg (F.begin s t0) ds).clock - t0) ≤ (n : Rat) * (P + 2 * secs Δ) ∧
+      (n ≠ 0 → secs ((runF pwmCfg (F.begin s t0) ds).clock - t0) < (n : Rat) * (P + 2 * secs Δ))) := by
+  obtain ⟨hb, ht, hc⟩ := run_cases pwmCfg v P m Δ s t0 ds hs hv0 hv1 hP hm0 hm hΔ hg hcap
+  rcases hc with ⟨h, _⟩ | ⟨h, _⟩ | ⟨_, _, hnd⟩
+  · rw [h] at h0; exact absurd h0 (by grind)
+  · rw [h] at h1; exact absurd h1 (by grind)
+  · have := cycles_bounds hb hnd hat
+    rw [hn, ht] at this
+    have hne : n ≠ 0 ↔ (runF pwmCfg (F.begin s t0) ds).pulses ≠ [] := by
+      rw [← hn, ← List.length_pos_iff]; omega
+    simp only [hne]
+    exact this
+
+example : AtBoundary (runF pwmCfg (F.begin halfStart 0) (halfGaps.take 35)) ∧
+    (runF pwmCfg (F.begin halfStart 0) (halfGaps.take 35)).pulses.length = 3 ∧
+    (runF pwmCfg (F.begin halfStart 0) (halfGaps.take 35)).onTime = 18000000 ∧
+    (runF pwmCfg (F.begin halfStart 0) (halfGaps.take 35)).clock = 35500000 ∧
+    (0 : Rat) < dutyOn (1 / 2) 10 3 ∧ dutyOn (1 / 2) 10 3 < 10 := by decide +kernel
+
+/-- (3) The property's statement on cycle-aligned windows: over a window as in (2) with n ≥ 1 the on-fraction T_on / T
+differs from dutyOn' / period by LESS THAN Δ / period – one maximal tick gap per period (the property allows two). -/
+theorem c20_cycle_fraction (v P m : Rat) (Δ : Int) (s : PwmState) (t0 : Int) (ds : List Int)
+    (hs : Boundary v P m s t0) (hv0 : 0 ≤ v) (hv1 : v ≤ 1) (hP : 0 < P) (hm0 : 0 ≤ m) (hm : m ≤ P) (hΔ : 0 ≤ Δ)
+    (hg : Gaps Δ ds) (hcap : (runF pwmCfg (F.begin s t0) ds).capHit = false)
+    (h0 : 0 < dutyOn v P m) (h1 : dutyOn v P m < P) (hat : AtBoundary (runF pwmCfg (F.begin s t0) ds))
+    (hne : (runF pwmCfg (F.begin s t0) ds).pulses ≠ []) :
+    secs (runF pwmCfg (F.begin s t0) ds).onTime / secs ((runF pwmCfg (F.begin s t0) ds).clock - t0)
+        - dutyOn v P m / P < secs Δ / P ∧
+    dutyOn v P m / P
+        - secs (runF pwmCfg (F.begin s t0) ds).onTime / secs ((runF pwmCfg (F.begin s t0) ds).clock - t0)
+        < secs Δ / P := by
+  obtain ⟨hb, ht, hc⟩ := run_cases pwmCfg v P m Δ s t0 ds hs hv0 hv1 hP hm0 hm hΔ hg hcap
+  rcases hc with ⟨h, _⟩ | ⟨h, _⟩ | ⟨_, _, hnd⟩
+  · rw [h] at h0; exact absurd h0 (by grind)
+  · rw [h] at h1; exact absurd h1 (by grind)
+  · have := cycles_fraction hb hnd hat h0 h1 hΔ hne
+    rw [ht] at this
+    exact this
+
+example : (runF pwmCfg (F.begin halfStart 0) (halfGaps.take 35)).pulses ≠ [] ∧
+    secs (runF pwmCfg (F.begin halfStart 0) (halfGaps.take 35)).onTime /
+      secs ((runF pwmCfg (F.begin halfStart 0) (halfGaps.take 35)).clock - 0) = 36 / 71 := by decide +kernel
+
+/-- (3') The property's statement on WALL-CLOCK windows, all duties: over the window [t0, t0 + n·period] counted from a
+cycle boundary (in particular from the first do_run after a fresh start – the reading decided by the monitor of
+checks/c20.py) the energised time differs from n·dutyOn' by at most n·Δ: one maximal tick gap per period.  `x` is the end
+of the window, anywhere between the last do_run of the run and the next one (which comes within Δ);
+`onUpTo f x` = energised µs within [t0, x]. -/
+theorem c20_on_fraction (v P m : Rat) (Δ : Int) (s : PwmState) (t0 : Int) (ds : List Int)
+    (hs : Boundary v P m s t0) (hv0 : 0 ≤ v) (hv1 : v ≤ 1) (hP : 0 < P) (hm0 : 0 ≤ m) (hm : m ≤ P)
+    (hg : Gaps Δ ds) (hcap : (runF pwmCfg (F.begin s t0) ds).capHit = false)
+    (x : Int) (hx0 : (runF pwmCfg (F.begin s t0) ds).clock ≤ x) (hx1 : x ≤ (runF pwmCfg (F.begin s t0) ds).clock + Δ)
+    (n : Nat) (hw : secs (x - t0) = (n : Rat) * P) :
+    (n : Rat) * (dutyOn v P m - secs Δ) ≤ secs (onUpTo (runF pwmCfg (F.begin s t0) ds) x) ∧
+    secs (onUpTo (runF pwmCfg (F.begin s t0) ds) x) ≤ (n : Rat) * (dutyOn v P m + secs Δ) := by
+  have hΔ : 0 ≤ Δ := by omega
+  have hδ := secs_nonneg hΔ
+  have hn0 : (0 : Rat) ≤ (n : Rat) := Rat.natCast_nonneg
+  have hnδ : 0 ≤ (n : Rat) * secs Δ := Rat.mul_nonneg hn0 hδ
+  obtain ⟨hb, ht, hc⟩ := run_cases pwmCfg v P m Δ s t0 ds hs hv0 hv1 hP hm0 hm hΔ hg hcap
+  rcases hc with ⟨h, hz⟩ | ⟨h, hf, _⟩ | ⟨h0, h1, hnd⟩
+  · have e : onUpTo (runF pwmCfg (F.begin s t0) ds) x = 0 := by
+      have := hb.hon
+      simp [hz.hp, hz.hpl] at this
+      simp [onUpTo, hz.hp, this]
+    rw [e, h, secs_zero]
+    constructor <;> grind
+  · obtain ⟨g1, g2⟩ := full_bounds hb hf
+    have g3 := full_nonneg hb hf
+    rw [ht] at g1 g2
+    have hord := hb.hord
+    have k1 : 0 ≤ onUpTo (runF pwmCfg (F.begin s t0) ds) x ∧ x - t0 - Δ ≤ onUpTo (runF pwmCfg (F.begin s t0) ds) x ∧
+        onUpTo (runF pwmCfg (F.begin s t0) ds) x ≤ x - t0 := by
+      unfold onUpTo
+      cases hp : (runF pwmCfg (F.begin s t0) ds).s.pumpOn
+      · have := (hf.hoff hp).1; rw [ht] at this; simp; omega
+      · simp; omega
+    have m0 := secs_nonneg k1.1
+    have m1 := secs_mono k1.2.1
+    have m2 := secs_mono k1.2.2
+    rw [secs_sub, hw] at m1
+    rw [hw] at m2
+    rw [h]
+    refine ⟨?_, by grind⟩
+    rcases Nat.eq_zero_or_pos n with hn | hn
+    · rw [hn]; simp; exact m0
+    · have : (1 : Rat) ≤ (n : Rat) := by
+        have := Rat.natCast_le_natCast.mpr hn
+        simpa using this
+      have := Rat.mul_le_mul_of_nonneg_right this hδ
+      grind
+  · have hw' : secs (x - (runF pwmCfg (F.begin s t0) ds).t0) ≤ (n : Rat) * P := by rw [ht, hw]; exact Rat.le_refl
+    obtain ⟨w1, w2⟩ := wall_bounds hb hnd h0 h1 x hx0 hx1 n hw'
+    rw [ht, secs_sub, hw] at w2
+    exact ⟨by grind, w1⟩
+
+theorem halfBoundary : Boundary (1 / 2) 10 3 halfStart 0 :=
+  (c20_fresh_boundary (1 / 2) 10 3 7200 0 0 (PwmState.init pwmCfg 10 3 7200 0) 0).1
+
+/-- the theorem applied: window [0 s, 30 s] = 3 periods of 10 s at duty 1/2, Δ = 1.5 s -/
+example : ((3 : Nat) : Rat) * (dutyOn (1 / 2) 10 3 - secs 1500000) ≤
+      secs (onUpTo (runF pwmCfg (F.begin halfStart 0) (halfGaps.take 29)) 30000000) ∧
+    secs (onUpTo (runF pwmCfg (F.begin halfStart 0) (halfGaps.take 29)) 30000000) ≤
+      ((3 : Nat) : Rat) * (dutyOn (1 / 2) 10 3 + secs 1500000) :=
+  c20_on_fraction (1 / 2) 10 3 1500000 halfStart 0 (halfGaps.take 29) halfBoundary (by decide +kernel) (by decide +kernel)
+    (by decide +kernel) (by decide +kernel) (by decide +kernel) (by decide +kernel) (by decide +kernel) 30000000
+    (by decide +kernel) (by decide +kernel) 3 (by decide +kernel)
+
+/-- the window [0 s, 30 s] = 3 periods ends after the do_run at 29.5 s (next one due by 31 s); 12.5 s energised vs 3·5 s -/
+example : (runF pwmCfg (F.begin halfStart 0) (halfGaps.take 29)).clock = 29500000 ∧
+    Gaps 1500000 (halfGaps.take 29) ∧ secs (30000000 - 0) = ((3 : Nat) : Rat) * 10 ∧
+    onUpTo (runF pwmCfg (F.begin halfStart 0) (halfGaps.take 29)) 30000000 = 12500000 := by decide +kernel
+
+/-- dutyOn' = 0 (duty·period = 0): never on, whatever the security timer does – no pulse, energised time 0. -/
+theorem c20_zero_on (v P m : Rat) (Δ : Int) (s : PwmState) (t0 : Int) (ds : List Int)
+    (hs : Boundary v P m s t0) (hP : 0 ≤ P) (h0 : dutyOn v P m = 0) (hg : Gaps Δ ds) :
+    (runF pwmCfg (F.begin s t0) ds).s.pumpOn = false ∧ (runF pwmCfg (F.begin s t0) ds).pulses = [] ∧
+    (runF pwmCfg (F.begin s t0) ds).onTime = 0 := by
+  have hb0 := base_begin hs hP
+  obtain ⟨hb, _⟩ := base_run pwmCfg v P m Δ hP ds _ hb0 hg
+  have hz := zero_run pwmCfg v P m Δ hP h0 ds _ hb0 ⟨hs.hpump, rfl, rfl⟩ hg
+  refine ⟨hz.hp, hz.hpl, ?_⟩
+  have := hb.hon
+  simpa [hz.hp, hz.hpl] using this
+
+example : dutyOn 0 10 3 = 0 ∧ (runF pwmCfg (F.begin (tick pwmCfg 0 (PwmState.init pwmCfg 10 3 7200 0)) 0) halfGaps).clock
+    = 40000000 := by decide +kernel
+
+/-- dutyOn' = period (duty within min_runtime of 100 %): continuously on – the pump is switched on by the second do_run
+and never off, so the energised time is the elapsed time less the first tick gap (≤ Δ). -/
+theorem c20_full_on (v P m : Rat) (Δ : Int) (s : PwmState) (t0 : Int) (ds : List Int)
+    (hs : Boundary v P m s t0) (hv0 : 0 ≤ v) (hv1 : v ≤ 1) (hP : 0 < P) (hm0 : 0 ≤ m) (hm : m ≤ P) (hΔ : 0 ≤ Δ)
+    (hg : Gaps Δ ds) (hcap : (runF pwmCfg (F.begin s t0) ds).capHit = false) (h1 : dutyOn v P m = P) :
+    (ds ≠ [] → (runF pwmCfg (F.begin s t0) ds).s.pumpOn = true) ∧ (runF pwmCfg (F.begin s t0) ds).pulses = [] ∧
+    (runF pwmCfg (F.begin s t0) ds).clock - t0 - Δ ≤ (runF pwmCfg (F.begin s t0) ds).onTime ∧
+    (runF pwmCfg (F.begin s t0) ds).onTime ≤ (runF pwmCfg (F.begin s t0) ds).clock - t0 := by
+  obtain ⟨hb, ht, hc⟩ := run_cases pwmCfg v P m Δ s t0 ds hs hv0 hv1 hP hm0 hm hΔ hg hcap
+  rcases hc with ⟨h, _⟩ | ⟨_, hf, hon⟩ | ⟨_, h, _⟩
+  · rw [h] at h1; exact absurd h1.symm (by grind)
+  · have := full_bounds hb hf
+    rw [ht] at this
+    exact ⟨hon, hf.hpl, this.1, this.2⟩
+  · rw [h1] at h; exact absurd h (by grind)
+
+def fullStart : PwmState := tick pwmCfg 0 (setValue (127 / 128) (PwmState.init pwmCfg 10 3 7200 0))
+
+example : dutyOn (127 / 128) 10 3 = 10 ∧ (runF pwmCfg (F.begin fullStart 0) halfGaps).capHit = false ∧
+    (runF pwmCfg (F.begin fullStart 0) halfGaps).onTime = 38500000 ∧
+    (runF pwmCfg (F.begin fullStart 0) halfGaps).clock = 40000000 := by decide +kernel
+
+/-- A do_run that switches the pump off leaves a cycle boundary again, so (1)–(3') also hold for windows that start at
+any later cycle boundary, not only at the fresh start. -/
+theorem c20_boundary_again (v P m : Rat) (Δ : Int) (s : PwmState) (t0 : Int) (ds : List Int)
+    (hs : Boundary v P m s t0) (hP : 0 ≤ P) (hg : Gaps Δ ds) (hat : AtBoundary (runF pwmCfg (F.begin s t0) ds)) :
+    Boundary v P m (runF pwmCfg (F.begin s t0) ds).s (runF pwmCfg (F.begin s t0) ds).clock := by
+  obtain ⟨hb, _⟩ := base_run pwmCfg v P m Δ hP ds _ (base_begin hs hP) hg
+  obtain ⟨hp, hps⟩ := hat
+  refine ⟨hb.hv, hb.hP, hb.hm, hb.hlast, ?_, by rw [← hb.hst, hp], hp⟩
+  rw [hb.hdur, hps]
+  unfold constrain; grind
+
+example : AtBoundary (runF pwmCfg (F.begin halfStart 0) (halfGaps.take 35)) ∧ Gaps 1500000 (halfGaps.take 35) := by
+  decide +kernel
+
+/-- "Security cap not reached" follows from a budget: if the security timer of the start state has no stale reference
+instant, a non-negative count, and count + total length of the run < its delay, then no do_run of the run finds it
+elapsed.  (After `PWM.__init__` the count is 0 and the delay is SECURITY_DURATION seconds; `do_cancel` keeps the count.) -/
+theorem c20_no_cap_of_budget (v P m : Rat) (Δ : Int) (s : PwmState) (t0 : Int) (ds : List Int)
+    (hs : Boundary v P m s t0) (hP : 0 ≤ P) (hg : Gaps Δ ds)
+    (hl : s.sec.last = none ∨ s.sec.last = some t0) (hd : 0 ≤ s.sec.duration)
+    (hbud : s.sec.duration + ds.sum < s.sec.delay) :
+    (runF pwmCfg (F.begin s t0) ds).capHit = false :=
+  nocap_run pwmCfg v P m Δ hP ds _ (base_begin hs hP) ⟨hl, hd⟩ hg hbud
+
+example : halfStart.sec.last = none ∧ halfStart.sec.duration = 0 ∧ halfStart.sec.delay = 7200000000 ∧
+    halfGaps.sum = 40000000 := by decide +kernel
+
+/-- The hypothesis `capHit = false` of `c20_on_fraction` cannot be dropped (by design: the security cap of C03 takes
+precedence over the duty).  Witness: SECURITY_DURATION = 5 s, period 10 s, min_runtime 3 s, duty 1 (dutyOn' = 10 s), do_runs
+every second from 0 s to 10 s: the pump is switched on at 1 s, cut by the security timer at 6 s and kept off, so the
+window [0 s, 10 s] = 1 period has 5 s energised instead of 10 s ± 1.5 s.  Replayed on the real class by checks/c20.py. -/
+def capStart : PwmState := tick pwmCfg 0 (setValue 1 (PwmState.init pwmCfg 10 3 5 0))
+def capGaps : List Int := List.replicate 10 1000000
+
+theorem c20_on_fraction_without_cap_hypothesis_counterexample :
+    Boundary 1 10 3 capStart 0 ∧ Gaps 1500000 capGaps ∧
+    (runF pwmCfg (F.begin capStart 0) capGaps).clock = 10000000 ∧ secs (10000000 - 0) = ((1 : Nat) : Rat) * 10 ∧
+    (runF pwmCfg (F.begin capStart 0) capGaps).capHit = true ∧
+    onUpTo (runF pwmCfg (F.begin capStart 0) capGaps) 10000000 = 5000000 ∧
+    ¬ (((1 : Nat) : Rat) * (dutyOn 1 10 3 - secs 1500000) ≤
+        secs (onUpTo (runF pwmCfg (F.begin capStart 0) capGaps) 10000000)) :=
+  ⟨(c20_fresh_boundary 1 10 3 5 0 0 (PwmState.init pwmCfg 10 3 5 0) 0).1, by decide +kernel, by decide +kernel,
+    by decide +kernel, by decide +kernel, by decide +kernel, by decide +kernel⟩
+
+/-- … whereas with the configured SECURITY_DURATION the same schedule is within the bound -/
+example : (runF pwmCfg (F.begin fullStart 0) capGaps).capHit = false ∧
+    onUpTo (runF pwmCfg (F.begin fullStart 0) capGaps) 10000000 = 9000000 := by decide +kernel
 
 end Poupool.C20
